@@ -104,7 +104,7 @@ theorem mem_single {x : Acct} {st st' : Stanza} {b : Acct} (h : st' ∈ single x
   · cases h
 
 section Server
-variable {accts : List Acct} {groups : List (Nat × List Acct)}
+variable {ex : Bool} {accts : List Acct} {groups : List (Nat × List Acct)}
 
 theorem DownGood.ack (V : View) (b : Acct) (id cls : Nat) : DownGood V b (.ack id cls) where
   dir := trivial
@@ -114,9 +114,9 @@ theorem DownGood.ack (V : View) (b : Acct) (id cls : Nat) : DownGood V b (.ack i
 
 theorem sv_msg_user {s : Sys} {a : Acct} {rest : List Stanza} {id : Nat} {b : Acct} {part : Option Acct} {im : Bool}
     {encs : List (Option Acct × Ct)} {pl : Option Payload} (hn : accts.Nodup)
-    (hA : AInv accts groups (abs s)) (hT : TV accts groups s.submitted (view s))
+    (hA : AInv accts groups (abs s)) (hT : TV ex accts groups s.submitted (view s))
     (hq : queueOf s.inbound a = .msg id (.user b) part im encs pl :: rest) :
-    TV accts groups s.submitted (view (serverProcess { s with inbound := insert s.inbound a rest } a (.msg id (.user b) part im encs pl))) := by
+    TV ex accts groups s.submitted (view (serverProcess { s with inbound := insert s.inbound a rest } a (.msg id (.user b) part im encs pl))) := by
   have hmem : Stanza.msg id (.user b) part im encs pl ∈ (abs s).inb a := by
     show _ ∈ queueOf s.inbound a; rw [hq]; simp
   obtain ⟨ha, ⟨_, n, hn1, hn2, hn3, _, _⟩, _⟩ := hA.inb_ok a _ hmem
@@ -174,9 +174,9 @@ theorem sv_msg_user {s : Sys} {a : Acct} {rest : List Stanza} {id : Nat} {b : Ac
 
 theorem sv_msg_group_some {s : Sys} {a : Acct} {rest : List Stanza} {id g : Nat} {p : Acct} {im : Bool}
     {encs : List (Option Acct × Ct)} {pl : Option Payload} (hn : accts.Nodup)
-    (hA : AInv accts groups (abs s)) (hT : TV accts groups s.submitted (view s))
+    (hA : AInv accts groups (abs s)) (hT : TV ex accts groups s.submitted (view s))
     (hq : queueOf s.inbound a = .msg id (.group g) (some p) im encs pl :: rest) :
-    TV accts groups s.submitted
+    TV ex accts groups s.submitted
       (view (serverProcess { s with inbound := insert s.inbound a rest } a (.msg id (.group g) (some p) im encs pl))) := by
   have hmem : Stanza.msg id (.group g) (some p) im encs pl ∈ (abs s).inb a := by
     show _ ∈ queueOf s.inbound a; rw [hq]; simp
@@ -261,9 +261,9 @@ theorem members_nodup (hnd : ∀ g ∈ groups, g.2.Nodup) (g : Nat) : ((lookup g
 
 theorem sv_msg_group_none {s : Sys} {a : Acct} {rest : List Stanza} {id g : Nat} {im : Bool}
     {encs : List (Option Acct × Ct)} {pl : Option Payload} (hn : accts.Nodup) (hnd : ∀ g ∈ groups, g.2.Nodup)
-    (hA : AInv accts groups (abs s)) (hT : TV accts groups s.submitted (view s))
+    (hA : AInv accts groups (abs s)) (hT : TV ex accts groups s.submitted (view s))
     (hq : queueOf s.inbound a = .msg id (.group g) none im encs pl :: rest) :
-    TV accts groups s.submitted
+    TV ex accts groups s.submitted
       (view (serverProcess { s with inbound := insert s.inbound a rest } a (.msg id (.group g) none im encs pl))) := by
   have hmem : Stanza.msg id (.group g) none im encs pl ∈ (abs s).inb a := by
     show _ ∈ queueOf s.inbound a; rw [hq]; simp
@@ -326,9 +326,9 @@ theorem sv_msg_group_none {s : Sys} {a : Acct} {rest : List Stanza} {id g : Nat}
 
 theorem sv_receipt {s : Sys} {a : Acct} {rest : List Stanza} {id : Nat} {peer : Dest} {part : Option Acct} {t : RType}
     (hn : accts.Nodup)
-    (hA : AInv accts groups (abs s)) (hT : TV accts groups s.submitted (view s))
+    (hA : AInv accts groups (abs s)) (hT : TV ex accts groups s.submitted (view s))
     (hq : queueOf s.inbound a = .receipt id peer part t :: rest) :
-    TV accts groups s.submitted
+    TV ex accts groups s.submitted
       (view (serverProcess { s with inbound := insert s.inbound a rest } a (.receipt id peer part t))) := by
   have hmem : Stanza.receipt id peer part t ∈ (abs s).inb a := by
     show _ ∈ queueOf s.inbound a; rw [hq]; simp
@@ -431,13 +431,13 @@ theorem sv_receipt {s : Sys} {a : Acct} {rest : List Stanza} {id : Nat} {peer : 
 
 /-- a stanza that carries no token and is answered by `ans` (possibly nothing) to the same client -/
 theorem sv_plain {s : Sys} {a : Acct} {rest : List Stanza} {st : Stanza} {add : Acct → List Stanza} (hn : accts.Nodup)
-    (hA : AInv accts groups (abs s)) (hT : TV accts groups s.submitted (view s))
+    (hA : AInv accts groups (abs s)) (hT : TV ex accts groups s.submitted (view s))
     (hq : queueOf s.inbound a = st :: rest)
     (hz : ∀ id r, upTok id r st = 0 ∧ retryUpTok id st = 0 ∧ rcptIn id st = 0 ∧ upN groups r id st = 0)
     (hadd : ∀ b x, x ∈ add b → b = a ∧ DownGood (view s) a x ∧
       ∀ id r, downTok id x = 0 ∧ retryDownTok id r x = 0 ∧ rcptOut id r x = 0 ∧ nOf id x = 0)
     (hans : ∀ iq, stanzaIq st = some iq → ∃ x ∈ add a, stanzaIq x = some iq) :
-    TV accts groups s.submitted (((view s).popIn a rest).pushes add) := by
+    TV ex accts groups s.submitted (((view s).popIn a rest).pushes add) := by
   have hmem : st ∈ (abs s).inb a := by
     show _ ∈ queueOf s.inbound a; rw [hq]; simp
   obtain ⟨ha, _, _⟩ := hA.inb_ok a _ hmem
@@ -468,9 +468,9 @@ theorem sv_plain {s : Sys} {a : Acct} {rest : List Stanza} {st : Stanza} {add : 
     simp
 
 theorem serverProcess_TV (hn : accts.Nodup) (hnd : ∀ g ∈ groups, g.2.Nodup) {s : Sys} {a : Acct} {st : Stanza} {rest : List Stanza}
-    (hA : AInv accts groups (abs s)) (hT : TV accts groups s.submitted (view s))
+    (hA : AInv accts groups (abs s)) (hT : TV ex accts groups s.submitted (view s))
     (hq : queueOf s.inbound a = st :: rest) :
-    TV accts groups s.submitted (view (serverProcess { s with inbound := insert s.inbound a rest } a st)) := by
+    TV ex accts groups s.submitted (view (serverProcess { s with inbound := insert s.inbound a rest } a st)) := by
   have hmem : st ∈ (abs s).inb a := by
     show _ ∈ queueOf s.inbound a; rw [hq]; simp
   have hug := hT.ups a _ hmem
@@ -514,7 +514,7 @@ theorem serverProcess_TV (hn : accts.Nodup) (hnd : ∀ g ∈ groups, g.2.Nodup) 
 
 /-- the server's step preserves the invariant -/
 theorem process_TInv (hw : WFConfig accts groups) (hnd : ∀ g ∈ groups, g.2.Nodup) {s : Sys} {a : Acct}
-    (h : TInv accts groups s) (hall : Allowed s (.process a) = true) : TInv accts groups (step s (.process a)) := by
+    (h : TInv ex accts groups s) (hall : Allowed s (.process a) = true) : TInv ex accts groups (step s (.process a)) := by
   refine ⟨step_inv h.1 hall, ?_⟩
   simp only [step]
   split
